@@ -150,6 +150,11 @@ func (fx *Fx) hardwired(st *State, fn *types.Func, call *ast.CallExpr, recv *Val
 			fx.unsup(call, "atomic operation on unknown location")
 		}
 		name := fn.Name()
+		fx.inAtomic = true
+		defer func() { fx.inAtomic = false }()
+		if strings.HasPrefix(name, "Store") && fx.w.atomicClass(loc.key) == "atomic rmw" {
+			c.oblige(st, "atomic", "store("+strings.TrimPrefix(loc.key, "F:")+")", "false", "field declared `atomic rmw` is changed only by Add/CompareAndSwap/Swap (a Load followed by a Store is not one atomic step)", pos)
+		}
 		cur := fx.readLoc(st, loc)
 		resT := types.Type(nil)
 		if sig.Results().Len() > 0 {
@@ -226,8 +231,31 @@ func (fx *Fx) hardwired(st *State, fn *types.Func, call *ast.CallExpr, recv *Val
 	case "fmt":
 		switch fn.Name() {
 		case "Sprintf", "Sprint", "Sprintln":
+			var vals []Val
 			for i := range call.Args {
-				argv(i)
+				vals = append(vals, argv(i))
+			}
+			// Sprintf("%v", x) / Sprintf("%f", x) of one number or string: a function of the verb and the value
+			if fn.Name() == "Sprintf" && len(call.Args) == 2 {
+				if tv, ok := fx.info.Types[call.Args[0]]; ok && tv.Value != nil {
+					verb := strings.Trim(tv.Value.ExactString(), "\"")
+					at := fx.info.TypeOf(call.Args[1])
+					if (verb == "%v" || verb == "%f" || verb == "%d" || verb == "%s") && at != nil {
+						if _, isIf := types.Unalias(at).Underlying().(*types.Interface); !isIf {
+							a := fx.eval(st, call.Args[1])
+							switch {
+							case a.S == "Int" && verb != "%f" && verb != "%s":
+								return []Val{{T: "(itoa " + a.T + ")", S: "Str", GT: types.Typ[types.String]}}, true
+							case a.S == "Real":
+								name := "fmt_real_" + strings.TrimPrefix(verb, "%")
+								c.declareFun(name, []string{"Real"}, "Str")
+								return []Val{{T: "(" + name + " " + a.T + ")", S: "Str", GT: types.Typ[types.String]}}, true
+							case a.S == "Str" && verb != "%f" && verb != "%d":
+								return []Val{{T: a.T, S: "Str", GT: types.Typ[types.String]}}, true
+							}
+						}
+					}
+				}
 			}
 			v := c.freshConst("fmt", "Str")
 			return []Val{{T: v, S: "Str", GT: types.Typ[types.String]}}, true
